@@ -84,6 +84,7 @@ def plan(tier, seed):
         jobs.append({'space': 'pick', 'how': how, 'tier': tier, 'weight': 60})
     jobs.append({'space': 'scope', 'tier': tier, 'weight': 5})
     jobs.append({'space': 'restate', 'tier': tier, 'weight': 20})
+    jobs.append({'space': 'rewrite', 'tier': tier, 'weight': 20})
     for lo, hi in core.chunks(512, 16):
         jobs.append({'space': 'transitions', 'lo': lo, 'hi': hi,
                      'tier': tier, 'weight': (hi - lo) * 8})
@@ -195,6 +196,8 @@ def run(job, seed):
         return run_scope(acc, P)
     if job['space'] == 'restate':
         return run_restate(acc, P)
+    if job['space'] == 'rewrite':
+        return run_rewrite(acc, P)
     if job['space'] == 'spelling':
         return run_spelling(acc, P)
     if job['space'] == 'filenames':
@@ -581,6 +584,58 @@ def run_restate(acc, P):
             finally:
                 w.destroy()
     acc.sample('restate', {'layers': file_layers})
+    return acc.result()
+
+
+def run_rewrite(acc, P):
+    """One file layer is REWRITTEN (not created or deleted) a quarter of a
+    second after it was first loaded - both modification times inside one
+    whole second - once, twice and three times in a row; an ordinary
+    enforce() follows each rewrite.  The layer's current text decides."""
+    for flip in (1, 2, 5, 8):
+        for others in ((), (0,), (0, 1), (0, 2, 8)):
+            sub = set(others) | {flip}
+            defs = {i: {NAMES[0]: 'role:L%d' % i} for i in sub}
+            w = world.FileWorld()
+            try:
+                w.clock.align()
+                layout(w, defs, set(), 'absent')
+                enf = enforcer(P, w, defs, False)
+                acc.ev(len(LAYERS))
+                first = probe(enf, NAMES[0])
+                rel = LAYERS[flip][2]
+                w.clock.align()
+                for step in range(3):
+                    text = 'role:V%d' % step
+                    w.write(rel, world.dumps_policy({NAMES[0]: text}))
+                    acc.case('rewrite', True)
+                    after = dict(defs)
+                    exp_layer = winner(sub)
+                    want_new = exp_layer == flip
+                    acc.ev(2)
+                    got_new = world.decide(enf, NAMES[0], {},
+                                           {'roles': ['V%d' % step]})
+                    got_old = world.decide(enf, NAMES[0], {}, {
+                        'roles': ['L%d' % flip] + ['V%d' % k
+                                                   for k in range(step)]})
+                    if first != winner(sub) or got_new != ('ok', want_new) \
+                            or got_old != ('ok', False):
+                        acc.violation(
+                            'rewrite|%s|step%d' % (rel, step + 1),
+                            'layers %s, %s rewritten %d time(s) within one '
+                            'second to say %r: holder of the new role %r, '
+                            'holder of the earlier ones %r (layer in effect '
+                            'should be %s)' % (
+                                sorted(sub), rel, step + 1, text, got_new,
+                                got_old, _lname(exp_layer)),
+                            {'layers': sorted(sub), 'file': rel,
+                             'step': step + 1}, want_new, got_new, 'rewrite')
+                        break
+                    acc.outcome('rewrite-%s' % ('in-effect' if want_new
+                                                else 'shadowed'))
+            finally:
+                w.destroy()
+    acc.sample('rewrite', {'files': [LAYERS[f][2] for f in (1, 2, 5, 8)]})
     return acc.result()
 
 
